@@ -217,11 +217,12 @@ def c16(tier):
     cases += mk("rules", 24 if q else 400, s + 2, "default", mode="bad")
     cases += mk("rules", 4 if q else 40, s + 3, "tiny", mode="bad")
     cases += mk("rules", 20 if q else 400, s + 4, "odd", mode="pairs", nrules=60) + mk("rules", 4 if q else 40, s + 5, "odd", mode="bad")
+    cases += mk("rules", 12 if q else 300, s + 6, "roomy", mode="pairs", nrules=60) + mk("rules", 6 if q else 60, s + 7, "roomy", mode="bad")
     res = run_cases(cases)
     return report("C16", "exploration", res,
                   "every single matcher x operand (58 adversarial strings: empty, prefixes/suffixes of each other, case variants, non-ASCII, the bytes next to the ASCII letter blocks, longer than any path, 255 / 256 / 300 bytes long) x "
                   "{no option, caseInsensitive true, false} evaluated by get/fetch against 53 paths (one of 255 bytes) (exhaustive in both tiers), "
-                  "random rules of 2-6 matchers, ill-formed rules (unknown names incl. every near-miss of a matcher / option name: longer, shorter, other case, padded; mistyped operands, too many matchers, repeated option key); oracle: independent "
+                  "random rules of 2-6 matchers, rules of every matcher count from 2 up to the configured maximum (2, 12 and 20 in the configurations used) with the deciding matcher in first / middle / last position, ill-formed rules (unknown names incl. every near-miss of a matcher / option name: longer, shorter, other case, padded; mistyped operands, too many matchers, repeated option key); oracle: independent "
                   "Python matcher (byte-wise / ASCII case folding); refused rules must leave nothing registered; distinct = (matcher set, option) signatures",
                   t0, tier, SIM_ASSUME, extra_cov={"exhaustive": False, "single_matcher_product_exhaustive": True}, min_events={"get_checks": 300, "rule_path_evaluations": 10000})
 
